@@ -1053,8 +1053,8 @@ func genMultiWith(rt *rapid.T, gen kit.GenOpts, withClose bool) *mcase {
 
 // TestC13MultiSchedules: resolutions of one scoped service that overlap each other AND the Close
 // of their scope. Whoever gets a value gets a complete one.
-func TestC13MultiSchedules(t *testing.T) {
-	col := evid.New("C13", "multi-thread-schedules", "controlled programs of 3-4 threads: 2-3 resolutions (mostly of one scoped service with optional dependencies on registered services) in one scope and a Close of that scope, each thread optionally parked at the n-th constructor entry/exit, instance Close() or schedule point inside godi it reaches; starts and releases interleaved in a generated order; nothing is made to fail; oracle: no panic, no hang, every resolution returns the disposed error or a value whose construction completed and which was built with every registered dependency it declares (also the optional ones: the disposed error that an optional field swallows must not produce a half-initialised result that somebody receives), C10 exactly-once disposal; non-trivial = the closing thread and a resolving thread were both parked")
+func runCloseMulti(t *testing.T, prop string) {
+	col := evid.New(prop, "multi-thread-close-schedules", "controlled programs of 3-4 threads: 2-3 resolutions (mostly of one scoped service with optional dependencies on registered services) in one scope and a Close of that scope, each thread optionally parked at the n-th constructor entry/exit, instance Close() or schedule point inside godi it reaches; starts and releases interleaved in a generated order; nothing is made to fail; oracle: no panic, no hang, every resolution returns the disposed error or a value whose construction completed and which was built with every registered dependency it declares (also the optional ones: the disposed error that an optional field swallows must not produce a half-initialised result that somebody receives), C10 exactly-once disposal; non-trivial = the closing thread and a resolving thread were both parked")
 	defer col.Flush()
 	rapid.Check(t, func(rt *rapid.T) {
 		g := kit.FullOpts()
@@ -1069,7 +1069,7 @@ func TestC13MultiSchedules(t *testing.T) {
 		x := c.X
 		var f *Failure
 		if c.Hang != "" {
-			f = fail("C13", "no-hang", "multi", "%s", c.Hang)
+			f = fail(prop, "no-hang", "multi", "%s", c.Hang)
 		}
 		for _, o := range x.R.Obs {
 			if f != nil {
@@ -1077,10 +1077,10 @@ func TestC13MultiSchedules(t *testing.T) {
 			}
 			switch {
 			case o.Panic != nil:
-				f = fail("C13", "no-panic", "multi/"+o.Kind, "%s(s%d,%s) panicked: %v", o.Kind, o.Scope, o.Ident, o.Panic)
+				f = fail(prop, "no-panic", "multi/"+o.Kind, "%s(s%d,%s) panicked: %v", o.Kind, o.Scope, o.Ident, o.Panic)
 			case o.Kind == "resolve" && o.Err != nil:
 				if _, registered := x.M.Owner(o.Ident); (registered || o.Ident.Group != "") && !kit.IsDisposed(o.Err) && !x.M.NilOutput(o.Ident) {
-					f = fail("C13", "documented-error", "multi/"+kit.Classify(o.Err), "get(s%d,%s) overlapping a Close failed with %v, want a value or the disposed error", o.Scope, o.Ident, firstLine(o.Err))
+					f = fail(prop, "documented-error", "multi/"+kit.Classify(o.Err), "get(s%d,%s) overlapping a Close failed with %v, want a value or the disposed error", o.Scope, o.Ident, firstLine(o.Err))
 				}
 			case o.Kind == "resolve":
 				for _, e := range o.Entries {
@@ -1088,7 +1088,7 @@ func TestC13MultiSchedules(t *testing.T) {
 						continue
 					}
 					if e == nil || (e.Inv != nil && (e.Inv.Outcome != 1 || e.BornSeq == 0 || e.BornSeq > o.EndSeq)) {
-						f = fail("C13", "complete-result", "multi/half-built", "get(s%d,%s) returned %v whose constructor had not completed", o.Scope, o.Ident, e)
+						f = fail(prop, "complete-result", "multi/half-built", "get(s%d,%s) returned %v whose constructor had not completed", o.Scope, o.Ident, e)
 					}
 				}
 			}
@@ -1098,14 +1098,14 @@ func TestC13MultiSchedules(t *testing.T) {
 			vis := x.visibleInvs()
 			for _, pr := range problems {
 				if pr.Oracle == "arg-present" && pr.Inv != nil && vis[pr.Inv] {
-					f = fail("C13", "complete-result", "multi/half-wired", "handed out although constructed without a registered dependency: %s", pr.Msg)
+					f = fail(prop, "complete-result", "multi/half-wired", "handed out although constructed without a registered dependency: %s", pr.Msg)
 					break
 				}
 			}
 		}
 		if f == nil {
 			if g := x.checkC10(true); g != nil {
-				f = fail("C13", "lifetime-rules", g.Oracle+"/"+g.Sig, "%s", g.Msg)
+				f = fail(prop, "lifetime-rules", g.Oracle+"/"+g.Sig, "%s", g.Msg)
 			}
 		}
 		closerParked := len(c.Threads) > 0 && c.Threads[len(c.Threads)-1].pk != nil && c.Threads[len(c.Threads)-1].pk.WasHit()
@@ -1120,6 +1120,12 @@ func TestC13MultiSchedules(t *testing.T) {
 		}
 	})
 }
+
+func TestC13MultiSchedules(t *testing.T) { runCloseMulti(t, "C13") }
+
+// TestC09CloseSchedules: the same programs as C09 sees them - every individual call returns a
+// result that respects the lifetime rules or one of the documented errors.
+func TestC09CloseSchedules(t *testing.T) { runCloseMulti(t, "C09") }
 
 // TestC11MultiSchedules: resolutions that overlap the Close of their scope, seen from the
 // order rule: whatever arrives late, no dependency is closed while something that holds it
